@@ -19,19 +19,19 @@ type specVal struct {
 }
 
 type SpecEnv struct {
-	x           *Exec
-	names       map[string]specVal
-	st          *State
-	old         *State
-	pkg         *types.Package
-	fr          *Frame
-	callerFrame *Frame
-	inOld       bool
+	x             *Exec
+	names         map[string]specVal
+	st            *State
+	old           *State
+	pkg           *types.Package
+	fr            *Frame
+	callerFrame   *Frame
+	inOld         bool
 	localsCurrent bool
-	ssaArgs     map[string]ssa.Value // callee parameter name -> SSA argument (call-site evaluation)
-	facts       *[]string            // inside a quantifier: valid side facts about terms mentioning the bound variable
-	tolerant    *[]string // when set, evaluation errors are collected here instead of breaking the unit
-	errs        []string
+	ssaArgs       map[string]ssa.Value // callee parameter name -> SSA argument (call-site evaluation)
+	facts         *[]string            // inside a quantifier: valid side facts about terms mentioning the bound variable
+	tolerant      *[]string            // when set, evaluation errors are collected here instead of breaking the unit
+	errs          []string
 }
 
 var untypedNil = types.Typ[types.UntypedNil]
